@@ -8,7 +8,7 @@ use serde_json::{json, Value};
 
 pub struct C14;
 
-fn seg_only_rule(t: &mut Tape, segs: Vec<(String, MSeg)>) -> (Rule, &'static str) {
+pub fn seg_only_rule(t: &mut Tape, segs: Vec<(String, MSeg)>) -> (Rule, &'static str) {
     let seg_prof = RuleProfile { supra_params: false, syll: false, structures: false, variables: false, insertion: false, deletion: false, metathesis: false, condensed: false, ..RuleProfile::FULL };
     let mut g = RuleGen::new(seg_prof, segs);
     let k = 1 + t.weighted(&[6, 3, 1]);
@@ -30,7 +30,7 @@ fn seg_only_rule(t: &mut Tape, segs: Vec<(String, MSeg)>) -> (Rule, &'static str
     (Rule { input: Side::Terms(vec![input]), output: Side::Terms(vec![output]), context, except, comment: None }, if matrices { "segment-only:matrices" } else { "segment-only:ipa" })
 }
 
-fn prosody_rule(t: &mut Tape, segs: Vec<(String, MSeg)>) -> (Rule, &'static str) {
+pub fn prosody_rule(t: &mut Tape, segs: Vec<(String, MSeg)>) -> (Rule, &'static str) {
     let mut g = RuleGen::new(RuleProfile { insertion: false, ..RuleProfile::FULL }, segs);
     let supra_out = |g: &mut RuleGen, t: &mut Tape| -> El {
         let pm = |t: &mut Tape| if t.chance(1, 2) { Sign::Plus } else { Sign::Minus };
